@@ -220,15 +220,21 @@ inline int RunIsolated(std::istream& in, const Handler& h, Report& rep, const Is
     if (batch.empty()) return;
     std::string why;
     if (!detail::RunChild(batch, 0, batch.size(), h, opt.watchdogSeconds, rep, why)) {
-      // isolate
-      for (size_t i = 0; i < batch.size(); ++i) {
-        std::string w;
-        if (!detail::RunChild(batch, i, i + 1, h, opt.watchdogSeconds, rep, w)) {
+      // isolate the faulting cases by bisection (a range that runs clean is merged, a failing single case is reported)
+      std::function<void(size_t, size_t)> bisect = [&](size_t from, size_t to) {
+        if (to - from == 1) {
           ++rep.cases;
-          std::string prop = opt.faultPropertyOf ? opt.faultPropertyOf(batch[i]) : opt.faultProperty;
-          rep.Violation(prop, "fault", batch[i], { {"fault", w} });
+          std::string prop = opt.faultPropertyOf ? opt.faultPropertyOf(batch[from]) : opt.faultProperty;
+          rep.Violation(prop, "fault", batch[from], { {"fault", why} });
+          return;
         }
-      }
+        const size_t mid = from + (to - from) / 2;
+        std::string w;
+        if (!detail::RunChild(batch, from, mid, h, opt.watchdogSeconds, rep, w)) { why = w; bisect(from, mid); }
+        if (!detail::RunChild(batch, mid, to, h, opt.watchdogSeconds, rep, w)) { why = w; bisect(mid, to); }
+      };
+      if (batch.size() == 1) { ++rep.cases; rep.Violation(opt.faultPropertyOf ? opt.faultPropertyOf(batch[0]) : opt.faultProperty, "fault", batch[0], { {"fault", why} }); }
+      else bisect(0, batch.size());
     }
     batch.clear();
   };
@@ -239,6 +245,24 @@ inline int RunIsolated(std::istream& in, const Handler& h, Report& rep, const Is
     if (batch.size() >= opt.batch) flush();
   }
   flush();
+  return 0;
+}
+
+// ---------------------------------------------------------------- recorders (direction B) must survive faults too
+// The recording loop runs in a child; if it dies, a {"e":"Fault"} event is appended to the trace so that the
+// trace specification (which has no Fault action) rejects it, instead of the check failing as infrastructure.
+inline int RunRecorder(const std::string& tracePath, const std::string& outPath, const std::function<int()>& body, unsigned watchdogSeconds = 900) {
+  pid_t pid = fork();
+  if (pid == 0) { std::set_terminate(detail::TerminateHandler); alarm(watchdogSeconds); _exit(body()); }
+  int st = 0;
+  while (waitpid(pid, &st, 0) < 0 && errno == EINTR) {}
+  if (WIFEXITED(st) && WEXITSTATUS(st) == 0) return 0;
+  std::ostringstream why;
+  if (WIFSIGNALED(st)) why << "signal " << WTERMSIG(st) << " (" << strsignal(WTERMSIG(st)) << ")"; else why << "exit status " << WEXITSTATUS(st);
+  long events = 0; { std::ifstream f(tracePath); std::string l; while (std::getline(f, l)) ++events; }
+  { std::ofstream f(tracePath, std::ios::app); f << json{ {"e", "Fault"}, {"why", why.str()} }.dump() << "\n"; }
+  Report rep; rep.cases = events; rep.counters["events"] = events + 1; rep.counters["faulted"] = 1;
+  rep.Write(outPath);
   return 0;
 }
 
